@@ -23,7 +23,14 @@ own derivative and central differences of its own utility at the forecast;
 form, derivative = engine gradient = closed form = central difference,
 closed-form consumption inverts the derivative, `validation` returns no
 message; (e) label <-> position maps; (f) relabelling relabels the forecasts
-and nothing else.
+and nothing else; (g) histories on ONE model object: forecast / numeric pieces /
+validation / per-draw call / brute force on data set A, then on other data
+sets with the same row names, on A with its rows permuted, on A again, with
+estimation results (real bioResults from BIOGEME.estimate) attached between
+calls; every call judged for the observation actually handed over and the
+parameter values carried at that moment, and compared with a model object
+without history; row objects kept across an estimation are compared with
+twin objects of identical content.
 """
 from __future__ import annotations
 
@@ -43,7 +50,9 @@ RULE = (
     'Numeric or expression of a Beta, baseline (and mu) utilities linear in 0-2 of 3 data columns (+ optional product '
     'term), 1-3 observations, Gumbel error draws, budget log-uniform 1e-2..2e3 (stratum "large": 1e4..1e7), labels '
     'from 6 labelling schemes, each case repeated under a random label bijection and insertion order; a stratified '
-    'part enumerates variant x outside x labelling. A case is non-trivial when at least one forecast of it was judged '
+    'part enumerates variant x outside x labelling; a history family (variant x outside x 3 call sequences over data '
+    'sets A/B/C, A permuted and attached estimation results) re-uses one model object over 3-4 data sets with 2-3 '
+    'observations whose baseline utilities all depend on the data. A case is non-trivial when at least one forecast of it was judged '
     'by the post-condition and at least one piece comparison was made; distinct = hash of the specification'
 )
 ASSUMPTIONS = [
@@ -76,6 +85,12 @@ N_RANDOM = {'quick': 400, 'thorough': 2000}
 N_LARGE = {'quick': 64, 'thorough': 300}
 DRAWS = {'quick': 6, 'thorough': 16}
 BRUTE_EVERY = {'quick': 6, 'thorough': 5}
+N_HISTORY = {'quick': 96, 'thorough': 480}
+HISTORY_DRAWS = {'quick': 3, 'thorough': 6}
+# A = the data set of the specification, B / C = other values in the same rows, P = A with its rows rotated,
+# E = attach estimation results carrying other parameter values, S = numeric pieces on the SAME one-row Database
+# objects that were used before the last E
+HISTORY_SEQUENCES = (('A', 'B', 'P', 'A'), ('A', 'E', 'S', 'A', 'B'), ('B', 'A', 'E', 'C', 'E', 'A'))
 
 PIECE_VAL_RTOL = 1e-8
 PIECE_DER_RTOL = 1e-8
@@ -99,6 +114,11 @@ def cases(seed, tier):
     out += [{'mode': 'random', 'seed': seed, 'i': i, 'tol': 'default' if i % 2 else 'tight', 'tier': tier} for i in range(N_RANDOM[tier])]
     out += [{'mode': 'large', 'seed': seed, 'i': i, 'variant': g.VARIANTS[i % 4], 'tol': 'tight' if i % 3 else 'default', 'tier': tier}
             for i in range(N_LARGE[tier])]
+    # histories on ONE model object: data set A, then other data sets / the same rows permuted / A again, with
+    # estimation results attached between calls in two of the three sequences
+    for i in range(N_HISTORY[tier]):
+        out.append({'mode': 'history', 'seed': seed, 'i': i, 'variant': g.VARIANTS[i % 4], 'outside': bool((i // 4) % 2),
+                    'sequence': (i // 8) % len(HISTORY_SEQUENCES), 'tol': 'default' if (i // 24) % 2 else 'tight', 'tier': tier})
     return out
 
 
@@ -626,11 +646,233 @@ def check_bruteforce(cx, spec, model, tag, which, row_db, r, d, eps_vec, got):
 
 
 # ---------------------------------------------------------------------------
+def attach_results(model, betas):
+    """a real bioResults object carrying the parameter values `betas`, obtained through BIOGEME.estimate() on the
+    concave quadratic -sum (beta - value)^2, attached with the public setter Mdcev.estimation_results"""
+    import pandas as pd
+    from biogeme.biogeme import BIOGEME
+    from biogeme.database import Database
+    from biogeme.expressions import Beta, Numeric
+    from biogeme.parameters import Parameters
+
+    f = None
+    for n, v in betas.items():
+        t = -((Beta(n, 0.0, None, None, 0) - Numeric(float(v))) ** 2)
+        f = t if f is None else f + t
+    pr = Parameters()
+    pr.set_value('generate_html', False, 'Output')
+    pr.set_value('generate_pickle', False, 'Output')
+    pr.set_value('save_iterations', False, 'Estimation')
+    pr.set_value('number_of_threads', 1, 'MultiThreading')
+    bg = BIOGEME(Database('c18est', pd.DataFrame({'x1': [0.0, 1.0]})), f, parameters=pr)
+    bg.modelName = 'c18est'
+    res = bg.estimate()
+    model.estimation_results = res
+    return {k: float(v) for k, v in res.get_beta_values().items()}
+
+
+def run_history(case):
+    """one model object, several calls: each call is judged for the observation actually given and for the
+    parameter values the model carries at that moment, and compared with a model object that has no history"""
+    from ..gen import c18_models as g
+    from ..oracle import c18_contract as C
+    from ..oracle import c18_kkt as K
+
+    rec = Rec(case)
+    tier = case.get('tier', 'quick')
+    spec0 = g.history_spec(case['seed'], case['i'], variant=case['variant'], outside=case['outside'], draws=HISTORY_DRAWS[tier])
+    rnd = random.Random(f'c18-hist-run-{stable_hash(case)}')
+    tol = case.get('tol', 'default')
+    seq = HISTORY_SEQUENCES[case['sequence']]
+    datasets = {'A': spec0['data'], 'B': g.other_data(rnd, spec0), 'C': g.other_data(rnd, spec0), 'P': g.permuted_data(spec0)}
+    per_mech = {}
+    cx0 = Ctx(rec, spec0)
+    cx0.per_mech = per_mech
+    try:
+        model, _ = g.build(spec0, 'h')
+    except BaseException as e:  # noqa
+        cx0.viol(f'constructor-raises-{type(e).__name__}', f'{e}')
+        return rec.out()
+    tag0 = collision_tag(spec0, model)
+    if not check_maps(cx0, spec0, model, tag0, 'model'):
+        return rec.out()
+    rec.c('history_cases')
+    rec.c('history_sequence_' + ''.join(seq))
+    rec.c('history_variant_' + spec0['variant'] + ('_outside' if spec0['outside'] is not None else '_no_outside'))
+    cur = spec0  # parameter values the model carries now
+    B = spec0['budget']
+    R, D = len(spec0['eps']), len(spec0['eps'][0])
+    held_rows = None  # one-row Database objects kept by the caller across steps
+    n_est = 0
+    judged = pieces = 0
+    for k, step in enumerate(seq):
+        htag = tag0 + ('' if k == 0 else '-model-object-used-before' + ('-estimation-results-attached' if n_est else ''))
+        if step == 'E':
+            want = g.perturbed_betas(rnd, cur)
+            try:
+                got = attach_results(model, want)
+            except BaseException as e:  # noqa
+                cx0.viol(f'history-attaching-estimation-results-raises-{type(e).__name__}', f'step {k}: {type(e).__name__}: {e}', htag)
+                break
+            if set(got) != set(want) or any(abs(got[n] - want[n]) > 1e-6 for n in want):
+                rec.inconc(f'auxiliary estimation did not reach the requested parameter values: {want} -> {got}')
+                break
+            cur = g.spec_with_betas(cur, got)
+            n_est += 1
+            rec.c('history_estimation_results_attached')
+            continue
+        if step == 'S':
+            # the caller kept the one-row Database objects of the previous step and uses them again now that the model
+            # carries other parameter values
+            if held_rows is None:
+                continue
+            sp = dict(cur, data=held_rows[0])
+            cx = Ctx(rec, sp)
+            cx.per_mech = per_mech
+            C.register(model, sp, 'h')
+            rec.c('history_same_row_objects_after_estimation_steps')
+            MECH = 'history-row-object-reused-after-estimation-results-keeps-old-parameter-values'
+            where = f'history step {k} (one-row Database objects of the previous step, new parameter values)'
+            for r in range(R):
+                held = held_rows[1][r]
+                twin = one_row_db(sp, r, f'row_{r}')  # same name, same content, another object
+                for l in sp['labels']:
+                    e1 = round(-math.log(-math.log(rnd.uniform(1e-3, 1 - 1e-3))), 5)
+                    x = float('%.5g' % (10 ** rnd.uniform(-2, 2)))
+                    gd = K.goods_of(sp, r, {str(q): (e1 if q == l else 0.0) for q in sp['labels']})[l]
+                    with np.errstate(all='ignore'):
+                        u_ref = float(np.real(gd.U(x)))
+                        sc = abs(u_ref) + abs(gd.dU(x)) * x + abs(gd.m) * x
+                    try:
+                        with warnings.catch_warnings():
+                            warnings.simplefilter('ignore')
+                            u_twin = float(model.utility_one_alternative(the_id=l, the_consumption=x, epsilon=e1, one_observation=twin))
+                            u_held = float(model.utility_one_alternative(the_id=l, the_consumption=x, epsilon=e1, one_observation=held))
+                    except BaseException as e:  # noqa
+                        cx.viol(f'history-numeric-utility-raises-{type(e).__name__}', f'{where}: {e}', tag0)
+                        continue
+                    rec.ev()
+                    pieces += 1
+                    rec.c('history_reused_row_object_utilities_compared')
+                    if not _relclose(u_twin, u_ref, PIECE_VAL_RTOL, sc):
+                        cx.viol('history-numeric-utility-differs-from-closed-form-after-estimation-results',
+                                f'{where}: alt {l}: utility_one_alternative on a new row object {u_twin!r}, closed form for the attached values {u_ref!r}', tag0)
+                    elif not _relclose(u_held, u_ref, PIECE_VAL_RTOL, sc):
+                        cx.viol(MECH, f'{where}: alt {l}, x={x}: utility_one_alternative gives {u_held!r} on the row object used before the results were '
+                                f'attached and {u_twin!r} (= closed form for the attached values) on a new object with the same content', generic=True,
+                                label=l, row=r, x=x, eps=e1)
+                # per-draw forecast on the held object against the same call on the twin
+                ev = g.eps_matrix(model, sp['eps'][r])[0]
+                C.reset()
+                try:
+                    with warnings.catch_warnings():
+                        warnings.simplefilter('ignore')
+                        f_twin = model.forecast_bisection_one_draw(one_row_of_database=twin, total_budget=B, epsilon=ev.copy())
+                    judged += absorb_log(cx, sp, list(C.LOG), tag0, where + ', new row object', count=False, model=model)
+                    C.reset()
+                    with warnings.catch_warnings():
+                        warnings.simplefilter('ignore')
+                        f_held = model.forecast_bisection_one_draw(one_row_of_database=held, total_budget=B, epsilon=ev.copy())
+                    log_held = list(C.LOG)
+                except BaseException as e:  # noqa
+                    cx.viol(f'history-forecast-on-reused-row-object-raises-{type(e).__name__}', f'{where}: {e}', tag0)
+                    continue
+                rec.ev()
+                rec.c('history_reused_row_object_forecasts_compared')
+                worst = max(abs(float(f_twin[l]) - float(f_held[l])) for l in sp['labels'])
+                bad_held = any(e.get('problems') for e in log_held)
+                if worst > 1e-6 * B or bad_held:
+                    cx.viol(MECH, f'{where}: observation {r}: forecast_bisection_one_draw gives {f_held} on the row object used before the results '
+                            f'were attached and {f_twin} on a new object with the same content'
+                            + (f'; post-condition on the former: {[e["problems"] for e in log_held if e.get("problems")][:1]}' if bad_held else ''),
+                            generic=True, row=r)
+            continue
+        data = datasets[step]
+        sp = dict(cur, data=data)
+        cx = Ctx(rec, sp)
+        cx.per_mech = per_mech
+        which = f'history step {k} (data set {step} of {"".join(seq)})'
+        C.register(model, sp, 'h')
+        rec.c('history_steps')
+        if k > 0:
+            rec.c('history_steps_after_first')
+        # (a) forecast over the data set, judged by the post-condition for the rows actually handed over
+        import pandas as pd
+        from biogeme.database import Database
+
+        db = Database('c18hist', pd.DataFrame({c: [float(x) for x in data[c]] for c in data}))
+        frames, entries, eps = run_forecast(cx, sp, model, db, htag, which, tol)
+        judged += absorb_log(cx, sp, entries, htag, which, model=model)
+        ok_frames = frames is not None and check_frames_against_log(cx, sp, model, frames, entries, eps, htag, which, tol)
+        # (b) a model object without history gives the same forecast
+        try:
+            fresh, _ = g.build(sp, 'f')
+            C.register(fresh, sp, 'f')
+            frames_f, entries_f, _ = run_forecast(cx, sp, fresh, db, htag, which + ', fresh model object', tol)
+            absorb_log(cx, sp, entries_f, htag, which + ', fresh model object', count=False, model=fresh)
+        except BaseException as e:  # noqa
+            frames_f = None
+            rec.c('history_fresh_model_failed_' + type(e).__name__)
+        if ok_frames and frames_f is not None:
+            rec.ev()
+            rec.c('history_compared_with_fresh_model')
+            worst = 0.0
+            for r in range(R):
+                for l in sp['labels']:
+                    a = frames[r][l].to_numpy(dtype=float)
+                    b = frames_f[r][l].to_numpy(dtype=float)
+                    worst = max(worst, float(np.max(np.abs(a - b))) if len(a) == len(b) else math.inf)
+            allow = RELABEL_RTOL * B
+            for e in entries + entries_f:
+                if 'meas' in e:
+                    allow = max(allow, 4 * e['meas'].get('budget_relerr', 0.0) * B)
+            if not worst <= allow:
+                cx.viol('history-forecast-differs-from-model-object-without-history',
+                        f'{which}: forecasts differ by {worst:.3g} (budget {B}) from those of a new model object on the same data set', htag,
+                        sequence=list(seq), step=k)
+        elif (frames is None) != (frames_f is None):
+            cx.viol('history-changes-whether-forecast-succeeds', f'{which}: forecast {"raised" if frames is None else "succeeded"} on the used '
+                    f'model object and {"raised" if frames_f is None else "succeeded"} on a new one', htag, sequence=list(seq), step=k)
+        # (c) numeric pieces / validation / per-draw call / brute force on one-row databases named as the library and
+        #     typical callers name them (the same names for every data set)
+        rows = [one_row_db(sp, r, f'row_{r}') for r in range(R)]
+        n0 = rec.n
+        check_pieces(cx, sp, model, htag, which, rnd, rows, 1)
+        pieces += rec.n - n0
+        rv = rnd.randrange(R)
+        check_validation(cx, sp, model, htag, which, one_row_db(sp, rv, 'row_0'), rv)
+        r1 = rnd.randrange(R)
+        one = one_row_db(sp, r1, 'one_row')
+        C.reset()
+        try:
+            with warnings.catch_warnings():
+                warnings.simplefilter('ignore')
+                model.forecast_bisection_one_draw(one_row_of_database=one, total_budget=B, epsilon=eps[r1][0].copy())
+            rec.c('direct_bisection_calls')
+        except BaseException as e:  # noqa
+            cx.viol(f'forecast_bisection_one_draw-raises-{type(e).__name__}', f'{which}: observation {r1}: {type(e).__name__}: {e}', htag)
+        judged += absorb_log(cx, sp, list(C.LOG), htag, which + ' (direct call)', model=model)
+        if ok_frames:
+            got = {l: float(frames[r1][l].iloc[0]) for l in sp['labels']}
+            check_library_kkt(cx, sp, model, htag, which, rows[r1], eps[r1][0], got, K.goods_of(sp, r1, sp['eps'][r1][0]))
+            if B <= 1e4 and (case['i'] + k) % 3 == 0:
+                check_bruteforce(cx, sp, model, htag, which, rows[r1], r1, 0, eps[r1][0], got)
+        held_rows = (data, rows)
+    if judged and pieces:
+        rec.key(stable_hash([spec0, list(seq)]))
+    if case['i'] % 41 == 0:
+        rec.sample({'history': list(seq), 'variant': spec0['variant'], 'labels': spec0['labels'], 'outside': spec0['outside'],
+                    'data_sets': datasets, 'budget': B, 'V': spec0['V']})
+    return rec.out()
+
+
 def run_case(case):
     from ..gen import c18_models as g
     from ..oracle import c18_contract as C
     from ..oracle import c18_kkt as K
 
+    if case['mode'] == 'history':
+        return run_history(case)
     rec = Rec(case)
     spec = spec_of(case)
     cx = Ctx(rec, spec)
@@ -780,6 +1022,14 @@ def finalize(cov, tier):
               'pieces_symbolic_compared', 'pieces_inverse_compared', 'pieces_derivative_at_zero_compared', 'library_kkt_checked',
               'forecast_frames_checked', 'maps_position_order_differs_from_sorted_labels', 'maps_label_differs_from_position',
               'forecasts_budget_judged_at_1e-6', 'direct_bisection_calls', 'prices_yes', 'scale_yes'):
+        if cov.get(k, 0) == 0:
+            out.append(f'monitor / situation never observed: {k}')
+    for v in g.VARIANTS:
+        for o in ('_outside', '_no_outside'):
+            if cov.get('history_variant_' + v + o, 0) == 0:
+                out.append(f'no history (one model object, several data sets) run for variant {v}{o}')
+    for k in ('history_steps_after_first', 'history_compared_with_fresh_model', 'history_estimation_results_attached',
+              'history_same_row_objects_after_estimation_steps'):
         if cov.get(k, 0) == 0:
             out.append(f'monitor / situation never observed: {k}')
     for lab in g.LABELINGS:
